@@ -4,10 +4,10 @@ package req
 
 import (
 	"context"
-	"crypto/tls"
 	"fmt"
 	"io"
 	"net/http/httptrace"
+	"os"
 	"strings"
 	"sync"
 	"sync/atomic"
@@ -28,6 +28,7 @@ type c08Scenario struct {
 	waitConn   bool // MaxConnsPerHost=1 and the only connection is busy
 	autoRead   bool // req's default: the response body is read inside the attempt
 	interval   time.Duration
+	midSleep   time.Duration // inject this long after the retry wait began (instead of at its start)
 }
 
 type c08Peer interface {
@@ -99,6 +100,14 @@ func c08ModelTrace(toks []string) string {
 // (-1: none). kind is "canceled" (context.WithCancel) or "deadline" (event-driven deadline
 // context); timeoutFlavour uses Client.SetTimeout and a peer that stalls at the trigger.
 func c08Exec(sc c08Scenario, kind string, trigger int, timeoutFlavour bool, clientTimeout time.Duration) (o c08Obs) {
+	if os.Getenv("C08_TIMING") != "" {
+		t0 := time.Now()
+		defer func() {
+			if d := time.Since(t0); d > 700*time.Millisecond {
+				fmt.Fprintf(os.Stderr, "C08 slow %v: %s %s %s trig=%d fired=%s res=%s body=%s follow=%v leak=%d\n", d.Round(time.Millisecond), sc.proto, sc.name, kind, trigger, o.firedNm, o.res, o.body, o.follow, len(o.leak))
+			}
+		}()
+	}
 	o = c08Obs{sc: sc, kind: kind, trigger: trigger, timeout: timeoutFlavour, rst: "0"}
 	base := len(c08Census())
 
@@ -123,6 +132,7 @@ func c08Exec(sc c08Scenario, kind string, trigger int, timeoutFlavour bool, clie
 	run := newC08Run(sc.up, sc.down, sc.failFirst, trigger, inject)
 	run.stallAt = timeoutFlavour
 	run.peerDriven = sc.autoRead
+	run.delay = sc.midSleep
 
 	d := &c08Dialer{}
 	var peer c08Peer
@@ -168,8 +178,7 @@ func c08Exec(sc c08Scenario, kind string, trigger int, timeoutFlavour bool, clie
 			o.hung, o.err = true, fmt.Errorf("HTTP/3 not available on this toolchain")
 			return
 		}
-		// (the round tripper's own TLS config is what it reads; see C12)
-		t3.TLSClientConfig = &tls.Config{InsecureSkipVerify: true}
+		c.EnableInsecureSkipVerify()
 		t3.Dial = d.h3dial
 		defer t3.Close()
 	}
@@ -330,6 +339,14 @@ func c08Exec(sc c08Scenario, kind string, trigger int, timeoutFlavour bool, clie
 		}
 	} else if o.fired {
 		o.elapsed = res.when.Sub(firedAt)
+		if sc.midSleep > 0 {
+			run.mu.Lock()
+			late := run.lateInject
+			run.mu.Unlock()
+			if !late || o.elapsed < 0 {
+				o.early = true // the call was over before the delayed injection happened
+			}
+		}
 	}
 	dialInFlight := atomic.LoadInt32(&run.dialsStarted) > atomic.LoadInt32(&run.dialsDone)
 
@@ -351,7 +368,7 @@ func c08Exec(sc c08Scenario, kind string, trigger int, timeoutFlavour bool, clie
 	run.mu.Lock()
 	bodies := append([]*c08Body(nil), run.bodies...)
 	run.mu.Unlock()
-	c08WaitFor(c08Bound, func() bool {
+	c08WaitFor(c08Bound/2, func() bool {
 		for _, b := range bodies {
 			if atomic.LoadInt32(&b.closes) == 0 {
 				return false
@@ -545,8 +562,12 @@ func c08Line(o c08Obs) (line, impl string) {
 	if o.sc.autoRead && (o.firedNm == "hdrSent" || strings.HasPrefix(o.firedNm, "sent#")) {
 		tr += "~" // observed at the peer: the client may not have processed it yet
 	}
+	kind := o.kind
+	if o.timeout {
+		kind = "timeout"
+	}
 	line = fmt.Sprintf("c08life %s %s %d %d %d 1 %s %s %s %s", o.sc.proto, tls, o.sc.up, o.sc.down, o.sc.maxRetries, auto,
-		tr, o.kind, impl)
+		tr, kind, impl)
 	return
 }
 
@@ -582,11 +603,37 @@ func c08ScriptLane(t *testing.T, proto string, lane string) {
 	c08Mu.Lock()
 	defer c08Mu.Unlock()
 	s := verifh.New(t, "C08", lane,
-		"scenarios {fresh conn, reused conn, streaming upload (fresh/reused), multi-chunk download, retry with interval (GET/upload), waiting for a connection} on "+proto+" against a scripted peer + instrumented dialer; the context is cancelled (context.WithCancel) or its deadline passes (event-driven deadline context) synchronously after the k-th observable event (dial start/finish, TLS handshake done, request head received, i-th upload chunk received, response headers returned, j-th body chunk read, retry wait entered) for every k (quick tier: first, last and seeded picks); observed: error class, time from injection to return (bound 2 s), Close on every request body, attempts started after the injection, follow-up request on the same client (and whether it had to dial), RST seen by the h2 origin, library goroutines left after CloseIdleConnections; compared with the lifecycle model's set of allowed outcomes for that (scenario, point) and judged by an independent oracle; non-trivial = injection fired")
+		"scenarios {fresh conn, reused conn, streaming upload (fresh/reused), multi-chunk download, retry with interval (GET/upload), waiting for a connection} on "+proto+" against a scripted peer + instrumented dialer; the context is cancelled (context.WithCancel) or its deadline passes (event-driven deadline context) synchronously after the k-th observable event (dial start/finish, TLS handshake done, request head received, i-th upload chunk received, response headers returned, j-th body chunk read, retry wait entered) for every k (quick tier: first, last and one seeded pick per kind of event), plus Client.SetTimeout expiring while the exchange is stalled at a point, plus a cancellation in the middle of a long retry wait; observed: error class, time from injection to return (bound 2 s), Close on every request body, attempts started after the injection, follow-up request on the same client (and whether it had to dial), RST seen by the h2 origin, library goroutines left after CloseIdleConnections; compared with the lifecycle model's set of allowed outcomes for that (scenario, point) and judged by an independent oracle; non-trivial = injection fired")
 	s.OracleIndependent = false
 	rnd := s.Rand()
 	cnt := map[string]int{}
 	count := func(k string) { cnt[k]++; s.Count(k) }
+	record := func(o c08Obs, id string, n int) {
+		if !o.fired {
+			// the exchange ended before reaching the point (must not happen: same script)
+			s.Observe(id, false, "", true, id, fmt.Sprintf("injection point %d of %d never reached; events=%v", o.trigger, n, o.names))
+			return
+		}
+		ok, failed, class := c08Judge(o)
+		line, impl := c08Line(o)
+		count("point=" + strings.SplitN(o.firedNm, "#", 2)[0])
+		count("res=" + o.res)
+		count("conn=" + o.conn)
+		count("body=" + o.body)
+		if o.rst == "1" {
+			count("rst-seen")
+		}
+		what := o.kind
+		if o.timeout {
+			what = "client timeout while stalled"
+		}
+		human := fmt.Sprintf("%s %s: %s after %s (event %d/%d, trace %s) -> %s, returned %v after the injection",
+			o.sc.proto, o.sc.name, what, o.firedNm, o.trigger, n, c08ModelTrace(o.trace), impl, o.elapsed.Round(time.Millisecond))
+		if !ok {
+			human += " FAILED: " + strings.Join(failed, ", ")
+		}
+		s.Case(line, impl, ok, class, true, human)
+	}
 	for _, sc := range c08Scenarios(proto) {
 		// dry run: the exchange completes and tells how many injection points it has
 		dry := c08Exec(sc, "canceled", -1, false, 0)
@@ -638,35 +685,71 @@ func c08ScriptLane(t *testing.T, proto string, lane string) {
 			}
 			for _, k := range picks {
 				o := c08Exec(sc, kind, k, false, 0)
-				id := fmt.Sprintf("%s/%s/%s/%d", proto, sc.name, kind, k)
-				if !o.fired {
-					// the exchange ended before reaching the point (must not happen: same script)
-					s.Observe(id, false, "", true, id, fmt.Sprintf("injection point %d of %d never reached; events=%v", k, n, o.names))
+				record(o, fmt.Sprintf("%s/%s/%s/%d", proto, sc.name, kind, k), n)
+			}
+		}
+
+		// the client timeout (Client.SetTimeout) expiring while the exchange is stalled at a point:
+		// a real timer, so only the generous bound is asserted; per attempt, so without retries
+		if sc.maxRetries == 0 && !sc.waitConn && (verifh.Thorough() || sc.name == "fresh" || sc.name == "upload" || sc.name == "download") {
+			var picks []int
+			if verifh.Thorough() {
+				for k := 0; k < n; k++ {
+					picks = append(picks, k)
+				}
+			} else {
+				picks = []int{rnd.Intn(n), n - 1}
+				if picks[0] == picks[1] {
+					picks = picks[:1]
+				}
+			}
+			for _, k := range picks {
+				to := 250 * time.Millisecond
+				o := c08Exec(sc, "deadline", k, true, to)
+				if o.early && !o.hung {
+					// the timer beat the script to the stall point (loaded machine): once more, slower
+					count("timeout-early-retry")
+					to = 1500 * time.Millisecond
+					o = c08Exec(sc, "deadline", k, true, to)
+				}
+				if o.early && !o.hung {
+					count("timeout-inconclusive")
 					continue
 				}
-				ok, failed, class := c08Judge(o)
-				line, impl := c08Line(o)
-				count("point=" + strings.SplitN(o.firedNm, "#", 2)[0])
-				count("res=" + o.res)
-				count("conn=" + o.conn)
-				count("body=" + o.body)
-				if o.rst == "1" {
-					count("rst-seen")
-				}
-				human := fmt.Sprintf("%s %s: %s after %s (event %d/%d, trace %s) -> %s, returned %v after the injection",
-					proto, sc.name, kind, o.firedNm, k, n, c08ModelTrace(o.trace), impl, o.elapsed.Round(time.Millisecond))
-				if !ok {
-					human += " FAILED: " + strings.Join(failed, ", ")
-				}
-				s.Case(line, impl, ok, class, true, human)
+				count("client-timeout")
+				record(o, fmt.Sprintf("%s/%s/client-timeout/%d", proto, sc.name, k), n)
 			}
+		}
+	}
+	// cancellation in the MIDDLE of a long retry wait: the wall-clock face of the retry-sleep clause
+	if proto == "h1" || verifh.Thorough() {
+		sc := c08Scenario{name: "retry-midsleep", proto: proto, down: 1, failFirst: 1, maxRetries: 1,
+			interval: 2500 * time.Millisecond, midSleep: 40 * time.Millisecond}
+		kinds := []string{"canceled"}
+		if verifh.Thorough() {
+			kinds = append(kinds, "deadline")
+		}
+		for _, kind := range kinds {
+			// injectable events: dialStart, dialDone, wroteHdr, sleepStart(3), …
+			idx := 3
+			if proto == "h2" {
+				idx = 4
+			}
+			o := c08Exec(sc, kind, idx, false, 0)
+			if o.firedNm != "sleepStart" || o.early {
+				count("midsleep-inconclusive")
+				continue
+			}
+			count("midsleep")
+			record(o, fmt.Sprintf("%s/retry-midsleep/%s", proto, kind), 0)
 		}
 	}
 	must := []string{"dry-ok", "point=dialStart", "point=dialDone", "point=wroteHdr", "point=wrote", "point=wroteLast",
 		"point=gotHeaders", "point=gotBody", "point=sleepStart", "point=hdrSent", "point=sent", "res=canceled", "res=deadline", "conn=reuse", "body=closed1", "body=none"}
+	must = append(must, "client-timeout")
 	switch proto {
 	case "h1":
-		must = append(must, "conn=new", "point=getConn")
+		must = append(must, "conn=new", "point=getConn", "midsleep")
 	case "h2":
 		must = append(must, "point=hsDone", "rst-seen")
 	case "h3":
